@@ -11,3 +11,10 @@ if [ ! -x $V/bin/python ] || ! $V/bin/python -c "import z3, cvc5, crosshair, yam
   PIP_NO_INDEX=1 $V/bin/python -m pip install -q --no-index --find-links /opt/veriftools/wheels z3-solver cvc5 crosshair-tool jsonschema >/dev/null
 fi
 $V/bin/python -c "import z3, cvc5, crosshair; print('overlay ok: z3', z3.get_version_string(), 'cvc5', cvc5.__version__)"
+# translator validation (informational): the repository's own tests with taskchain loaded through the import hook
+if PYTHONDONTWRITEBYTECODE=1 PYTHONWARNINGS=ignore $V/bin/python -m sx.selftest >/tmp/.sx_selftest.$$ 2>&1; then
+  echo "selftest: $(grep -E 'passed|failed' /tmp/.sx_selftest.$$ | tail -1)"
+else
+  echo "selftest: FAILED (instrumented code does not behave like the original on the repository's tests)"; tail -5 /tmp/.sx_selftest.$$
+fi
+rm -f /tmp/.sx_selftest.$$
